@@ -90,6 +90,8 @@ type collector struct {
 	els     []telem
 	nproof  int
 	session int
+	nrel    int // non-revocation proofs whose response relations were looked at
+	ndep    int // ... of which some relation betrays a shared randomiser
 }
 
 func (c *collector) newSession() int {
@@ -117,6 +119,18 @@ func (c *collector) addProofD(session int, p *gabi.ProofD, cred *gabi.Credential
 	c.vals = append(c.vals, tval{session, id, p.C, fmt.Sprintf("cred%p-e", cred), p.EResponse, ePrime})
 	c.els = append(c.els, telem{id, "A", p.A})
 	if p.NonRevocationProof != nil {
+		// the four blinding secrets of the non-revocation part (e*r2, e*r3, r2, r3) each have a
+		// randomiser of their own: were beta/delta and epsilon/zeta blinded alike, then
+		// s_beta - s_delta = e*(s_epsilon - s_zeta), which gives e away from a single proof
+		if r := p.NonRevocationProof.Responses; r["beta"] != nil && r["delta"] != nil && r["epsilon"] != nil && r["zeta"] != nil && cred.NonRevocationWitness != nil {
+			lhs := new(big.Int).Sub(r["beta"], r["delta"])
+			rhs := new(big.Int).Sub(r["epsilon"], r["zeta"])
+			rhs.Mul(rhs, cred.NonRevocationWitness.E)
+			c.nrel++
+			if lhs.Cmp(rhs) == 0 || r["beta"].Cmp(r["delta"]) == 0 || r["epsilon"].Cmp(r["zeta"]) == 0 {
+				c.ndep++
+			}
+		}
 		c.els = append(c.els, telem{id, "Cr", p.NonRevocationProof.Cr}, telem{id, "Cu", p.NonRevocationProof.Cu})
 		// the witness value is the hidden revocation attribute: its response is shared with a_responses
 	}
@@ -134,6 +148,15 @@ func (c *collector) addProofU(session int, p *gabi.ProofU, b *gabi.CredentialBui
 		c.vals = append(c.vals, tval{session, id, p.C, fmt.Sprintf("b%p-m%d", b, i), r, mUser[i]})
 	}
 	c.els = append(c.els, telem{id, "U", p.U})
+}
+
+// relOp: the linear relations between the responses of one non-revocation proof (see addProofD).
+func (c *collector) relOp(class string) Op {
+	res := "independent"
+	if c.ndep > 0 {
+		res = fmt.Sprintf("dependent %d of %d", c.ndep, c.nrel)
+	}
+	return Op{"op": "recorded", "class": class + "-nonrev-response-relations", "label": "independent", "nomodel": true, "result": res, "proofs": c.nrel}
 }
 
 func (c *collector) op(class string) Op {
@@ -263,6 +286,9 @@ func genC07(g *Rng, tier string, emit func(Op)) {
 			doOp(col, creds, ir, g.intn(600), ctx, nonce, nil)
 		}
 		emit(col.op("sequential"))
+		if col.nrel > 0 {
+			emit(col.relOp("sequential"))
+		}
 	}
 	// every short history over {P = prepare the cache, U = somebody else is revoked and the witness
 	// is updated, D = proof with non-revocation, d = proof without} on one credential: what a
@@ -308,6 +334,9 @@ func genC07(g *Rng, tier string, emit func(Op)) {
 			}
 		}
 		emit(col.op("script-" + script))
+		if col.nrel > 0 {
+			emit(col.relOp("script"))
+		}
 	}
 	// one issuance builder asked twice for its commitment proof (a retry with a fresh issuer nonce).
 	// A CredentialBuilder commits to v' and to its blind shares once, at construction, so those
